@@ -816,7 +816,7 @@ pub(crate) async fn commit_transaction(
         // Build an up-to-date manifest from the transaction and current manifest
         let (mut manifest, mut indices) = match transaction.operation {
             Operation::Restore { version } => {
-                Transaction::restore_old_manifest(
+                let (mut manifest, indices) = Transaction::restore_old_manifest(
                     object_store,
                     commit_handler,
                     &dataset.base,
@@ -824,7 +824,12 @@ pub(crate) async fn commit_transaction(
                     write_config,
                     &transaction_file,
                 )
-                .await?
+                .await?;
+                // `next_row_id` is a high-water mark: versions committed after the restored
+                // one may already have handed out row ids above the restored counter, and
+                // those must never be assigned to different rows later on.
+                manifest.next_row_id = manifest.next_row_id.max(dataset.manifest.next_row_id);
+                (manifest, indices)
             }
             _ => transaction.build_manifest(
                 Some(dataset.manifest.as_ref()),
